@@ -27,8 +27,38 @@ def parseEntry (s : String) : Option Entry :=
 
 def lookup (tab : List Entry) (c : List Nat) : Option Entry := tab.find? (·.code = c)
 
+def codeN : List Nat := [110]                                   -- n
+def codeRec : List Nat := [120, 46, 114, 101, 99, 40, 110, 41]    -- x.rec(n)
+
+def evTab (tab : List Entry) (c : List Nat) : List Nat :=
+  match lookup tab c with | some e => e.repl | none => []
+
+/-- REC: the literal is evaluated with n = d; its expression `x.rec(n)` evaluates the SAME
+    literal again with n - 1 (or yields "." at 0). Expected text, by recursion on d. -/
+def recOut (tab : List Entry) (lit : List Nat) : Nat → List Nat
+  | 0 => interp (fun c => if c = codeN then strBytes "0" else if c = codeRec then strBytes "."
+            else evTab tab c) lit
+  | d + 1 => interp (fun c => if c = codeN then strBytes (toString (d + 1))
+            else if c = codeRec then recOut tab lit d else evTab tab c) lit
+
+def runShared (kind : String) (k : Nat) (lit : List Nat) (tab : List Entry) : String :=
+  let nt := if (evaluated lit).isEmpty then "" else "\tnt=1"
+  if kind = "REC" then hexEnc (recOut tab lit k) ++ nt
+  else
+    let outs := (List.range k).map fun i =>
+      hexEnc (interp (fun c => if c = codeN then strBytes (toString i) else evTab tab c) lit)
+    ",".intercalate outs ++ nt
+
 def runCase (payload : String) : String :=
   match payload.splitOn " " with
+  | "REC" :: k :: _src :: _flag :: lit :: entries =>
+    match hexDecode lit, entries.mapM parseEntry with
+    | some lit, some tab => runShared "REC" k.toNat! lit tab
+    | _, _ => "bad-payload"
+  | "PAR" :: k :: _src :: _flag :: lit :: entries =>
+    match hexDecode lit, entries.mapM parseEntry with
+    | some lit, some tab => runShared "PAR" k.toNat! lit tab
+    | _, _ => "bad-payload"
   | _src :: flag :: lit :: entries =>
     match hexDecode lit, entries.mapM parseEntry with
     | some lit, some tab =>
